@@ -429,6 +429,7 @@ def _instr_instances(tier):
                 shapes = [dict(leb=[a, b]) for a in lebs for b in lebs]
             if 'block' in kinds:
                 shapes = [dict(s, blob=k) for s in shapes for k in ((0, 2) if tier == 'quick' else (0, 1, 3))]
+                shapes += [dict(shapes[0], blob=2, bloblen=2), dict(shapes[0], blob=130)]       # padded length; an expression of 128 bytes or more
             for s in shapes:
                 for pre, trail in ((0, False), (1, True)):
                     out.append(dict(e, op=op, shape=s, pre=pre, trail=trail))
@@ -515,7 +516,7 @@ HARNESSES = [
     H('h6_2_instr', h_instr, _instr_instances, expect=('ok', 'rejected'),
       desc='_parse_instructions on one instruction of every opcode (0..0x3f extended + 3 primary with symbolic 6-bit operand): operands symbolic; '
            'opcode, args, name, exact consumption (trailing remember_state) equal the DWARF 5 6.4.2 / 7.24 table; unassigned opcodes rejected',
-      bounds={'quick': 'LEB128 operands 1-2 bytes, blocks 0/2 bytes', 'thorough': 'LEB128 1/2/4 bytes, blocks 0/1/3'}),
+      bounds={'quick': 'LEB128 operands 1-2 bytes, blocks 0/2/130 bytes and a padded block length', 'thorough': 'LEB128 1/2/4 bytes, blocks 0/1/3/130 and a padded block length'}),
     H('h6_3_table', h_table, _table_instances, expect=('ok',),
       desc='CFIEntry._decode_CFI_table on instruction lists built directly: (a) one step from an arbitrary initial row / CIE rule set (6 state shapes, all '
            'arguments symbolic) for every opcode, (b) CIE decoding, (c) pairs, (d) remember/restore_state patterns; alignment factors, offsets, locations symbolic; '
